@@ -571,6 +571,38 @@ pub fn drive_bulk(seed: u64, tier: &str, out: &mut Out) {
             em.emit(&exec(&ops, false), out);
         }
     }
+    // a spectrum of tile sizes up to megabytes (sizes around powers of two and odd ones in between): written, reopened
+    // through the other API, every tile looked up, and the reader-backed archive written again
+    {
+        let lens = [255usize, 256, 4095, 4097, 16_385, 40_961, 65_535, 65_537, 100_159, 262_145, 531_441, 1_048_577, 2_500_001];
+        let tiles: Vec<(u64, Vec<u8>)> = lens
+            .iter()
+            .enumerate()
+            .map(|(i, l)| {
+                let mut c = rng.bytes(64);
+                c.resize(*l, (i as u8).wrapping_mul(37));
+                let n = c.len();
+                c[n - 1] = 0xE0 | i as u8; // the last byte tells a truncated copy from the whole
+                (3 + 5 * i as u64, c)
+            })
+            .collect();
+        for api in [0u8, 1] {
+            let mut set = Settings::random(&mut rng, 1 + api);
+            set.tc = 1;
+            let mut ops = vec![Op::New { tt: set.tt, tc: set.tc, api }, Op::Set(set), Op::Bulk(tiles.clone()), Op::Save, Op::Reopen { api: 1 - api }, Op::Count, Op::List];
+            for (id, _) in &tiles {
+                ops.push(Op::Get { id: *id });
+            }
+            ops.push(Op::Save);
+            ops.push(Op::Reopen { api });
+            for (id, _) in &tiles {
+                ops.push(Op::Get { id: *id });
+            }
+            ops.push(Op::Reset);
+            em.emit(&exec(&ops, false), out);
+        }
+        println!("stat bulk_tiles_beyond_one_megabyte=2");
+    }
     let mut k = 0u64;
     for rep in 0..reps {
         for &n in &sizes {
